@@ -24,6 +24,14 @@ NOTES = {
  'S3-C19': "missed at first (0/719): the check destroyed the DMap once. Added the redestroy phase (Destroy, writes through the retained embedded handles only, Destroy again at once or a little later, 1-3 rounds, then every key, copy, scan and STATS must be empty). Caught in 33 of 724 runs since.",
  'S3-C20': "missed at first (0/139): the churn was uniform over the key set. Added skewed churn (cold keys written once fill most of the oldest table of each fragment, a few hot keys are churned). Caught in 64 of 169 runs since.",
  'S3-C05': "second, independent change for C05 (distributeBackups edits the live backup-owner list in place). Missed at first: the enumerated space had no membership change. Added the 'leave' kind (a backup owner leaves or crashes while four writers put fresh keys on the coordinator, copies counted after every acknowledged Put, 7/71/271 partitions). Caught in 2 of 229 runs since; with the change some runs also fail to form a stable cluster (reported as infra-note, not as a violation of C05).",
+ 'S4-C01': "second change for C01 (storage engine keeps a superseded version when an overwrite rolls over to a new table; compaction copies it back). Caught at once by C01 (8/771 not-linearizable) and by C11.",
+ 'S4-C04': "second change for C04 (PutRaw on a backup leaves a hidden stale version in an older table; compaction brings it back). Missed at first (0/178): chains used 1-3 keys, so backup fragments never had several tables, and copies were only compared right after an operation. Added filler traffic on other keys and a settled census after background work. Caught since.",
+ 'S4-C06': "second change for C06 (sortVersions picks the last version at least as new as the first instead of the newest, needs >= 3 differing copies). Caught at once (22/146 get-not-newest).",
+ 'S4-C07': "second change for C07 (per-operation-kind key locks: Incr and Decr no longer exclude each other). Caught at once (186/465).",
+ 'S4-C09': "second change for C09 (Incr that straddles the deadline drops the ttl). Missed at first (0/295): between the expiry check and the computation of the remaining lifetime no simulated time could pass. The instrumenter now makes every statement that reads the clock a scheduling point, C09 got sub-millisecond probe phases, more Incr/Decr probes and a variant with many short pauses. Caught since (2/221).",
+ 'S4-C12': "second change for C12 (literal MATCH patterns compared with HasPrefix). Missed at first (0/698): every pattern of the check was anchored or matched at position 0. Added unanchored literals, classes and alternatives. Caught since (92/231).",
+ 'S4-C14': "second change for C14 (Publish releases the registry lock before it writes). Missed at first (0/849): the oracle had no frame-order rule (a message read after the UNSUBSCRIBE acknowledgement on the same connection) and subscriptions rarely changed during a PUBLISH. Added the rule (acknowledgement frames are stamped by the connection reader) and a churn variant. Caught since (85/359 message-after-unsubscribe).",
+ 'S4-C15': "second change for C15 (multi-key Delete drops keys through stale slice pointers). Caught at once (75/134).",
  'S3-C02': "second, independent change for C02 (fragment.Move releases the fragment lock while the table travels). Missed by C02 at first (caught by C03): deletes rarely coincided with the re-replication moves after a stop. Added the sweeper variant (slow network, 4 clients deleting their own keys one by one through the failure, 7 partitions). Caught by C02 since, rarely (3 of 192 runs); C03 catches it more often (6 of 246).",
  'S3-C03': "second, independent change for C03 (fragment.Move drops the table although the target refused it). Caught at once (key-lost).",
  'S3-C13': "second, independent change for C13 (stale backup owners when the cluster shrinks to one member). Caught at once (not-stabilised).",
